@@ -1,8 +1,9 @@
+import TplModel.Props.Loader
 import TplModel.Props.RenderProps
 import TplModel.Props.C05refine
 /-! # C16 — rendering is a pure function of template and data
 
-OBLIGATIONS: RN.execute_refines, RN.execute_flags, RN.refExecute_mono, RN.Props.execute_is_function_of_inputs, RN.Props.nc_dependence, RN.Props.depends_on_top_level_only, RN.Props.kids_nc_dependence, RN.Props.stale_conditions_harmless -/
+OBLIGATIONS: RN.execute_refines, RN.execute_flags, RN.refExecute_mono, RN.Props.execute_is_function_of_inputs, RN.Props.nc_dependence, RN.Props.depends_on_top_level_only, RN.Props.kids_nc_dependence, RN.Props.stale_conditions_harmless, EN.loaded_manager_ok, EN.execute_refines_loaded, EN.exec_refines_loaded -/
 namespace C16
 
 /-- `Execute` runs on a fresh directive state: the model's `execute` takes no state argument, so two executions with
